@@ -24,7 +24,7 @@ def run_part(c):
     b = c.go_build("c09prim")
     if not b:
         return
-    n = 240 if c.tier == "quick" else 6000
+    n = 240 if c.tier == "quick" else 1500
     rc, out = c.run([b, "-out", c.build, "-seed", str(c.seed), "-n", str(n)], timeout=1200)
     if rc != 0:
         c.break_("corr", "c09prim harness run failed", out)
